@@ -152,7 +152,7 @@ func init() {
 			{Rule: "EFF-2"},
 			{Rule: "TAB-6", Filter: and(func(o Ob) bool { return o.Role == "grower-flag" || (o.Role == "factory" && strings.Contains(o.Construct, "grower factory")) }, cfgIs("D"))},
 		},
-		Decides:    "on all mkdir and verify routes (Markdown/root × simple/massive) name validation is switched on before growing, the stage runs only after growing succeeded, validatePath rejects '/' in names and invalid paths and is guarded by nothing but the validation flag, the grower is never the no-op on these routes, every filesystem path is filepath.Join(targetDir, node path) with targetDir fed from WithTargetDir, and creation happens only inside the mkdirer.",
+		Decides:    "on all mkdir and verify routes (Markdown/root × simple/massive) name validation is switched on before growing, the stage runs only after growing succeeded, validatePath rejects '/' in names, the names \"\", \".\" and \"..\", and invalid paths and is guarded by nothing but the validation flag, the grower is never the no-op on these routes, every filesystem path is filepath.Join(targetDir, node path) with targetDir fed from WithTargetDir, and creation happens only inside the mkdirer.",
 		NotDecided: "what path.Join / fs.ValidPath accept as values (a child named '.' or a '..' that path.Join resolves inside the tree passes validation), symlink escapes, OS behaviour.",
 	}
 	props["C09"] = &PropSpec{ID: "C09",
